@@ -21,12 +21,12 @@ const ChunkSize = 1 << 20
 
 // Blob is one element of the content universe of a script.
 type Blob struct {
-	ID        int    `json:"id"`   // model name, >= 1; sha512 blobs have ids 1000..1999 (model: algorithm = id / 1000)
+	ID        int    `json:"id"`            // model name, >= 1; sha512 blobs have ids 1000..1999 (model: algorithm = id / 1000)
 	Alg       string `json:"alg,omitempty"` // "" = sha256, "sha512" (ids 1000..), "sha384" (ids 2000..)
-	Kind      string `json:"kind"` // "raw" | "manifest" | "badmanifest" (manifest media type, bytes that are not JSON)
-	Size      int    `json:"size"` // raw: number of bytes
-	Fill      uint64 `json:"fill"` // raw: PRNG seed of the bytes
-	JSON      string `json:"json"` // manifest: the bytes
+	Kind      string `json:"kind"`          // "raw" | "manifest" | "badmanifest" (manifest media type, bytes that are not JSON)
+	Size      int    `json:"size"`          // raw: number of bytes
+	Fill      uint64 `json:"fill"`          // raw: PRNG seed of the bytes
+	JSON      string `json:"json"`          // manifest: the bytes
 	MediaType string `json:"media_type"`
 }
 
@@ -79,7 +79,7 @@ func (b Blob) AlgName() string {
 	}
 	return b.Alg
 }
-func (b Blob) Digest() string   { return b.AlgName() + ":" + b.Hex() }
+func (b Blob) Digest() string    { return b.AlgName() + ":" + b.Hex() }
 func (b Blob) IsManifest() bool  { return b.Kind == "manifest" || b.Kind == "badmanifest" }
 func (b Blob) Undecodable() bool { return b.Kind == "badmanifest" }
 
@@ -91,6 +91,8 @@ func (b Blob) Undecodable() bool { return b.Kind == "badmanifest" }
 //	untag    ref             Untag(ref)
 //	delete   blob            Delete(desc(blob))      (AutoGC off: plain delete)
 //	saveindex                SaveIndex()
+//	tagdigest   blob         Tag(desc(blob), <digest string of blob>)
+//	untagdigest blob         Untag(<digest string of blob>)   (refused: a digest is not a tag)
 //	gc                       GC()
 //	reopen                   oci.New on the same directory (a second store object)
 //
@@ -113,6 +115,8 @@ func (o Op) String() string {
 		return fmt.Sprintf("tag:%d:%d", o.Blob, o.Ref)
 	case "untag":
 		return fmt.Sprintf("untag:%d", o.Ref)
+	case "tagdigest", "untagdigest":
+		return fmt.Sprintf("%s:%d", o.Kind, o.Blob)
 	}
 	return o.Kind
 }
@@ -137,13 +141,17 @@ type Segment struct {
 // Script = universe + earlier crashed runs + history of completed operations of
 // the last process + the operation it is interrupted in.
 type Script struct {
-	AutoGC  bool      `json:"auto_gc,omitempty"`
+	AutoGC bool `json:"auto_gc,omitempty"`
 	// NoAutoSave: the store runs with AutoSaveIndex = false (only SaveIndex writes index.json)
-	NoAutoSave bool `json:"no_auto_save,omitempty"`
-	Blobs   []Blob    `json:"blobs"`
-	Pre     []Segment `json:"pre,omitempty"`
-	History []Op      `json:"history"`
-	Final   Op        `json:"final"`
+	NoAutoSave bool      `json:"no_auto_save,omitempty"`
+	Blobs      []Blob    `json:"blobs"`
+	Pre        []Segment `json:"pre,omitempty"`
+	History    []Op      `json:"history"`
+	Final      Op        `json:"final"`
+	// Conc: after the history, one goroutine per list runs its operations (Push, Tag,
+	// Untag, SaveIndex only: the calls that hold the Store's lock for reading) concurrently
+	// with the others; the process is killed at an arbitrary moment (stream "conc").
+	Conc [][]Op `json:"conc,omitempty"`
 }
 
 func (s *Script) Blob(id int) *Blob {
